@@ -2,6 +2,7 @@ package padding
 
 import (
 	"crypto/cipher"
+	"errors"
 	"io"
 )
 
@@ -10,22 +11,32 @@ import (
 // in: 密文输入流
 // out: 明文输出流
 func P7BlockDecrypt(decrypter cipher.BlockMode, in io.Reader, out io.Writer) error {
+	blockSize := decrypter.BlockSize()
 	bufIn := make([]byte, 1024)
 	bufOut := make([]byte, 1024)
-	p7Out := NewPKCS7PaddingWriter(out, decrypter.BlockSize())
+	p7Out := NewPKCS7PaddingWriter(out, blockSize)
+	// 未凑满一个分组的数据保留在 bufIn 开头，等待后续读取
+	remain := 0
 	for {
-		n, err := in.Read(bufIn)
+		n, err := in.Read(bufIn[remain:])
 		if err != nil && err != io.EOF {
 			return err
 		}
-		if n == 0 {
+		n += remain
+		full := n - n%blockSize
+		if full > 0 {
+			decrypter.CryptBlocks(bufOut[:full], bufIn[:full])
+			if _, werr := p7Out.Write(bufOut[:full]); werr != nil {
+				return werr
+			}
+		}
+		remain = copy(bufIn, bufIn[full:n])
+		if err == io.EOF {
 			break
 		}
-		decrypter.CryptBlocks(bufOut, bufIn[:n])
-		_, err = p7Out.Write(bufOut[:n])
-		if err != nil {
-			return err
-		}
+	}
+	if remain != 0 {
+		return errors.New("padding: input is not a multiple of the block size")
 	}
 	return p7Out.Final()
 }
@@ -35,21 +46,28 @@ func P7BlockDecrypt(decrypter cipher.BlockMode, in io.Reader, out io.Writer) err
 // in: 明文输入流
 // out: 密文输出流
 func P7BlockEnc(encrypter cipher.BlockMode, in io.Reader, out io.Writer) error {
+	blockSize := encrypter.BlockSize()
 	bufIn := make([]byte, 1024)
 	bufOut := make([]byte, 1024)
-	p7In := NewPKCS7PaddingReader(in, encrypter.BlockSize())
+	p7In := NewPKCS7PaddingReader(in, blockSize)
+	// 未凑满一个分组的数据保留在 bufIn 开头，等待后续读取
+	remain := 0
 	for {
-		n, err := p7In.Read(bufIn)
+		n, err := p7In.Read(bufIn[remain:])
 		if err != nil && err != io.EOF {
 			return err
 		}
-		if n == 0 {
-			break
+		n += remain
+		full := n - n%blockSize
+		if full > 0 {
+			encrypter.CryptBlocks(bufOut[:full], bufIn[:full])
+			if _, werr := out.Write(bufOut[:full]); werr != nil {
+				return werr
+			}
 		}
-		encrypter.CryptBlocks(bufOut, bufIn[:n])
-		_, err = out.Write(bufOut[:n])
-		if err != nil {
-			return err
+		remain = copy(bufIn, bufIn[full:n])
+		if err == io.EOF {
+			break
 		}
 	}
 	return nil
